@@ -57,7 +57,7 @@ func (f Flag) IsRepeatable() bool {
 
 func (f Flag) TakesValue() bool {
 	switch f.Value.Type() {
-	case "bool", "boolSlice", "count":
+	case "bool", "count": // boolSlice has no NoOptDefVal: the parser requires an argument for it
 		return false
 	default:
 		return true
